@@ -104,7 +104,8 @@ ITEMS = [
     Fn(RESP, "impl<'a> Response<'a> > fn policy_set", wrap=W,
        requires=[('wf', 'wf(*self)')],
        ensures=[('residuals', 'forall|k: PolicyID| self.residuals@.contains_key(k) ==> r.links().contains_key(k) && is_residual_policy(#[trigger] r.links()[k], self.residuals@[k])'),
-                ('only', 'forall|k: PolicyID| r.links().contains_key(k) ==> self.residuals@.contains_key(k)')],
+                ('only', 'forall|k: PolicyID| r.links().contains_key(k) ==> self.residuals@.contains_key(k)'),
+                ('view', 'is_policy_set_of(r, self.residuals@)')],
        loops={1: Loop(iter_suffix='.vx_for()', invariant=[
            ('snapshot', 'wf(*self), self.residuals.order_ok(), it_1.snapshot@.remaining().len() == self.residuals.key_order().len()'),
            ('items', 'forall|i: int| 0 <= i < self.residuals.key_order().len() ==> *(#[trigger] it_1.snapshot@.remaining()[i]) == self.residuals@[self.residuals.key_order()[i]]'),
@@ -126,5 +127,14 @@ ITEMS = [
                 let i = choose|i: int| 0 <= i < self.residuals.key_order().len() && self.residuals.key_order()[i] == k;
             }
         }'''),
+    Fn(RESP, "impl<'a> Response<'a> > fn reauthorize", wrap=W,
+       sig_rewrites=[(r'crate::authorizer::Response', 'AuthzResponse', 1)],
+       requires=[('wf', 'wf(*self)')],
+       ensures=[('guards', 'r is Ok <==> sp_request_valid(self.schema, *request) && (forall|i: int| 0 <= i < entities.spec_all().len() ==> sp_entity_conforms(self.schema, #[trigger] entities.spec_all()[i])) && sp_entities_consistent(self.entities, entities) && sp_request_consistent(self.request, *request)'),
+                ('answer', 'r is Ok ==> exists|ps: PolicySet| #[trigger] is_policy_set_of(ps, self.residuals@) && r->Ok_0 == sp_is_authorized(*request, ps, entities)')],
+       loops={1: Loop(iter_suffix='.vx_for()', invariant=[
+           ('snapshot', 'entities_checker.spec_schema() == self.schema && it_1.snapshot@.remaining().len() == entities.spec_all().len() && forall|i: int| 0 <= i < entities.spec_all().len() ==> *(#[trigger] it_1.snapshot@.remaining()[i]) == entities.spec_all()[i]'),
+           ('done', 'forall|i: int| 0 <= i < it_1.index@ ==> sp_entity_conforms(self.schema, #[trigger] entities.spec_all()[i])'),
+       ])}),
 ]
 CANARIES = ['Response::new', 'policy_set']
